@@ -27,13 +27,31 @@ def _own(fn: ast.AST):
         stack.extend(ast.iter_child_nodes(n))
 
 
+def _simple_arg(e: ast.AST) -> bool:
+    return isinstance(e, (ast.Name, ast.Constant)) or (isinstance(e, (ast.List, ast.Tuple, ast.Dict)) and all(isinstance(x, (ast.List, ast.Tuple, ast.Dict, ast.Load, ast.Constant)) for x in ast.walk(e)))
+
+
+def _strip_lookup(e: ast.AST) -> ast.AST:
+    """A pure lookup on top of an attribute chain: `<chain>.get(k[, default])` or `<chain>[k]` with simple k (reads a container, changes nothing)."""
+    if isinstance(e, ast.Call) and isinstance(e.func, ast.Attribute) and e.func.attr == 'get' and 1 <= len(e.args) <= 2 and not e.keywords and all(_simple_arg(a) for a in e.args):
+        return e.func.value
+    if isinstance(e, ast.Subscript) and _simple_arg(e.slice):
+        return e.value
+    return e
+
+
 def _pure_chain(e: ast.AST) -> bool:
+    inner = _strip_lookup(e)
+    if inner is not e and not isinstance(inner, ast.Attribute):
+        return False  # a lookup on a bare local is not worth (or safe) to propagate
+    e = inner
     while isinstance(e, ast.Attribute):
         e = e.value
     return isinstance(e, ast.Name)
 
 
 def _root(e: ast.AST) -> str:
+    e = _strip_lookup(e)
     while isinstance(e, ast.Attribute):
         e = e.value
     return e.id  # type: ignore[union-attr]
@@ -144,9 +162,11 @@ def propagate_new_aliases(tree: ast.Module, module: str, known_locals: dict[str,
                         continue
                     last_use = max(_pos(u) for u in uses)
                     # the chain must denote the same object at every use: neither its root nor one of its attributes is assigned in between
-                    if any(_pos(s) > _pos(st) and _pos(s) <= last_use for s in stores.get(root, [])):
+                    names_in_val = {x.id for x in ast.walk(val) if isinstance(x, ast.Name)}
+                    if any(_pos(s) > _pos(st) and _pos(s) <= last_use for nm_ in names_in_val for s in stores.get(nm_, [])):
                         continue
-                    chain_txt = ast.unparse(val)
+                    chain_txt = ast.unparse(_strip_lookup(val))
+                    full_txt = ast.unparse(val)
                     attr_stores = [n for n in _own(fn) if isinstance(n, ast.Attribute) and isinstance(n.ctx, (ast.Store, ast.Del)) and (chain_txt == ast.unparse(n) or chain_txt.startswith(ast.unparse(n) + '.'))]
                     if any(_pos(st) < _pos(n) <= last_use for n in attr_stores):
                         continue
@@ -155,7 +175,7 @@ def propagate_new_aliases(tree: ast.Module, module: str, known_locals: dict[str,
                     for j in range(i + 1, len(blk)):
                         blk[j] = sub.visit(blk[j])
                     blk[i] = ast.copy_location(ast.Pass(), st)
-                    log.append(f'{module}:{qn} new alias `{tgt} = {chain_txt}` propagated into its {len(uses)} use(s)')
+                    log.append(f'{module}:{qn} new alias `{tgt} = {full_txt}` propagated into its {len(uses)} use(s)')
                     changed = True
                     break
                 if changed:
